@@ -11,8 +11,20 @@ The array-level functions take the Signal object: they are run on a fresh object
 object - on objects with a history (default spectrum read before; spectrum generated with non-default
 arguments before), and the object is re-read afterwards.
 
+Objects with a longer history ('obj' cases): the object was constructed with ANOTHER record of another length (on either side
+of a power-of-two boundary), queried in every way (lazy properties, non-default spectra, array-level functions, dominant
+period, smoothed spectrum, deprecated statistics), then given this record by reset_values / add_constant / add_series; the
+spectrum must be that of the record held NOW.  Same cases: argument containers (int64, int16 and uint8 with large steps, list,
+tuple), A-B-A call patterns and two live objects (class-level state), results overwritten by the caller, default options after
+explicit ones.  'scaled' cases: the word / long records multiplied by 1e-9 and 1e+6 with dt in {1e-6, 40} (the spectrum is
+linear; every comparison is relative to the expected peak).  'near' cases: two harmonics whose amplitudes differ by 1e-6 / 1e-7
+relative (the dominant period must be that of the larger one).
+
 Pool-case kinds:
   word   one record with all configurations inside
+  obj    one record: object histories, containers, call patterns (see above)
+  scaled one record x one scale factor: check_record (light) with the small / large dt menu
+  near   one N: all ordered pairs of distinct harmonics x relative amplitude differences x scales
   long   deterministic longer records around powers of two (lengths the word tree cannot reach)
   pair   one word x with every word y of the same length: spectrum(2x-3y) = 2 S(x) - 3 S(y)
   inv    one even N: inverse helpers on the spectra of a basis (all impulses) and of mixed records
@@ -29,6 +41,10 @@ DTS = (0.01, 0.5)
 CLASSES = ('Signal', 'AccSignal')
 LIN_A, LIN_B = 2.0, -3.0
 TIE = 1e-12
+SCALES = (1e-9, 1e6)
+SCALED_DTS = (1e-6, 40.0)
+NEAR_EPS = (1e-6, 1e-7)
+NEAR_SCALES = (1.0, 1e-9, 1e6)
 
 
 # ------------------------------------------------------------------------------ enumeration
@@ -40,12 +56,25 @@ def build(tier, seed):
     inv_n = list(range(2, 42, 2)) if quick else list(range(2, 66, 2)) + [96, 100, 128, 130, 200, 256]
     longs = [8, 15, 16, 17, 31, 32, 33] if quick else [8, 15, 16, 17, 31, 32, 33, 63, 64, 65, 100, 127, 128, 129, 255,
                                                       256, 257]
+    LH = 5 if quick else 6      # words up to this length: object histories, containers, call patterns
+    LS = 4 if quick else 6      # words up to this length: scaled by 1e-9 / 1e+6
+    near_n = [8, 16] if quick else [8, 16, 32]
     cases = []
     for w in words(SIGMA, 2, L, nonzero=True):
         cases.append({'k': 'word', 'w': list(w), 'cross': len(w) <= LX})
+    for w in words(SIGMA, 2, LH, nonzero=True):
+        cases.append({'k': 'obj', 'w': list(w)})
+    for w in words(SIGMA, 2, LS, nonzero=True):
+        for sc in SCALES:
+            cases.append({'k': 'scaled', 'w': list(w), 'scale': sc})
     for n in longs:
         for pat in ('first', 'last', 'mixed'):
             cases.append({'k': 'long', 'L': n, 'pat': pat})
+        cases.append({'k': 'obj', 'L': n, 'pat': 'mixed'})
+        for sc in SCALES:
+            cases.append({'k': 'scaled', 'L': n, 'pat': 'mixed', 'scale': sc})
+    for n in near_n:
+        cases.append({'k': 'near', 'N': n})
     for x in words(SIGMA, 2, LP, nonzero=True):
         cases.append({'k': 'pair', 'x': list(x)})
     for n in inv_n:
@@ -60,9 +89,19 @@ def build(tier, seed):
                 'gen_fa_spectrum(n = next odd > L+1)} (words of length <= %d: every padding mode as history x calc_fa_spectrum in '
                 'every padding mode), followed by a re-read of the object; + 3 deterministic records for each length in %s; + all ordered '
                 'pairs of words of equal length <= %d (linearity); + inverse helpers for every even N in %s on all impulses '
-                'and mixed records; non-trivial = record not identically zero' % (L, list(DTS), LX, longs, LP, inv_n),
+                'and mixed records; + for every word of length <= %d and the mixed long records: the object history / container / call '
+                'pattern family of the module docstring (previous record lengths {2, L-1, L+1, 2L+1, 2^ceil(log2 L)+1} x previous '
+                'queries {none, everything, gen_fa_spectrum(p2_plus=1), gen_fa_spectrum(n odd)}); + words of length <= %d and the '
+                'mixed long records x scale in %s x dt in %s; + near-equal harmonic pairs for N in %s, eps in %s, scales %s; '
+                'non-trivial = record not identically zero'
+                % (L, list(DTS), LX, longs, LP, inv_n, LH, LS, list(SCALES), list(SCALED_DTS), near_n, list(NEAR_EPS),
+                   list(NEAR_SCALES)),
         'bounds': {'alphabet': SIGMA, 'max_len': L, 'dt': DTS, 'p2_plus': [0, 1, 2, 3], 'n': ['L', 'L+1', '2L', '(L+2)|1'],
-                   'pair_max_len': LP, 'history_full_cross_max_len': LX,
+                   'pair_max_len': LP, 'history_full_cross_max_len': LX, 'object_family_max_len': LH, 'scaled_max_len': LS,
+                   'scales': SCALES, 'scaled_dt': SCALED_DTS, 'near_equal_N': near_n, 'near_equal_eps': NEAR_EPS,
+                   'near_equal_scales': NEAR_SCALES, 'containers': ['float64', 'int64', 'int16 x15000', 'uint8 x125 (words without -1)',
+                                                                    'list', 'tuple'],
+                   'previous_record_lengths': ['2', 'L-1', 'L+1', '2L+1', '2^ceil(log2 L)+1'],
                    'object_history_before_array_level_call': ['fresh', 'lazy-read', 'gen_fa_spectrum(p2_plus=1)',
                                                               'gen_fa_spectrum(n=(L+2)|1)', 'every padding mode (short words)'], 'inverse_even_N': inv_n, 'long_lengths': longs, 'tie_tolerance': TIE},
         'required_classes': ['odd-N', 'even-N', 'pow2-length', 'non-pow2-length', 'p2_plus>0', 'explicit-n', 'n=npts',
@@ -72,8 +111,17 @@ def build(tier, seed):
                              'parseval-even-N', 'parseval-odd-N', 'inverse-pow2-N', 'inverse-non-pow2-N',
                              'inverse-roundtrip', 'inverse-nonzero-mean', 'inverse-nonzero-nyquist', 'object==array',
                              'array-level-on-fresh-object', 'array-level-after-default-spectrum',
-                             'array-level-after-non-default-spectrum'],
-        'assumptions': ['sample values outside {-1,0,2} (and their linear combinations 2x-3y) are not examined',
+                             'array-level-after-non-default-spectrum', 'history-shorter-record-before',
+                             'history-longer-record-before', 'history-across-power-of-two', 'history-same-padded-length',
+                             'history-add_constant', 'history-add_series', 'container-i64', 'container-i16', 'container-u8',
+                             'container-list', 'container-tuple', 'a-b-a', 'two-live-objects', 'returned-array-overwritten',
+                             'default-after-explicit', 'scaled-1e-09', 'scaled-1e+06', 'near-equal-amplitudes'],
+        'assumptions': ['sample values outside {-1,0,2} (their linear combinations 2x-3y, their multiples by 1e-9, 1e+6, 15000 (int16), '
+                        '125 (uint8), and the two-harmonic records of the near-equal family) are not examined',
+                        'float32 records are not examined (the unchanged tree transforms them in single precision)',
+                        'an array handed out by a lazy property (sig.fa_spectrum, sig.fa_freqs) is the object\'s own store, like '
+                        'sig.values: overwriting it in place is outside the examined space; after gen_fa_spectrum() / '
+                        'reset_values() the object must hold correct values again',
                         'record lengths above the bound only through the listed long / inverse families',
                         'dt only on the menu; requested n >= npts (zero padding, never truncation)',
                         'bins k = 0..N/2-1 is read as 0..floor(N/2)-1 for odd N',
@@ -255,7 +303,7 @@ def check_series(r, sub, got, want, N, scale):
 
 
 # ------------------------------------------------------------------------------ one record
-def check_record(r, w, tag, light=False, full_cross=False):
+def check_record(r, w, tag, light=False, full_cross=False, dts=DTS):
     """All configurations for one record.  tag identifies the record in violation keys."""
     L = len(w)
     ref = RefCache(w)
@@ -265,7 +313,8 @@ def check_record(r, w, tag, light=False, full_cross=False):
     sumsq = sum(v * v for v in w)
     modes = modes_for(L)
     n_default = fr.n_rule(L, 0)
-    for dt in DTS:
+    integral = all(float(v) == int(v) for v in w)
+    for dt in dts:
         for cname in CLASSES:
             r.cls(cname)
             base = {'w': tag, 'dt': dt, 'cls': cname}
@@ -293,11 +342,11 @@ def check_record(r, w, tag, light=False, full_cross=False):
             ok, out = r.call('values', sub, lazy_freq_first)
             if ok:
                 cmp_spec(r, sub, out[0], out[1], rspec, rfreqs)
-            if cname == 'Signal':
+            if cname == 'Signal' and integral:
                 r.cls('int-input')
 
                 def lazy_int():
-                    s = make(cname, np.array(w, dtype=np.int64), dt)
+                    s = make(cname, np.array([int(v) for v in w], dtype=np.int64), dt)
                     return s.fa_spectrum, s.fa_freqs
                 sub = dict(base, mode='default', entry='object-lazy-int64')
                 ok, out = r.call('values', sub, lazy_int)
@@ -448,6 +497,313 @@ def check_record(r, w, tag, light=False, full_cross=False):
     return r
 
 
+# ------------------------------------------------------------------------------ objects with a history, containers, patterns
+HIST = ('nothing', 'everything', 'gen_fa_spectrum(p2_plus=1)', 'gen_fa_spectrum(n=odd)')
+
+
+def prev_lens(L):
+    c = set([2, L - 1, L + 1, 2 * L + 1, (1 << fr.ceil_log2(L)) + 1])
+    return sorted(v for v in c if v >= 2 and v != L)
+
+
+def partner(w):
+    """Another record of the same length with the same first and last sample (length 2: the reversed record)."""
+    if len(w) <= 2:
+        return list(reversed(w))
+    return [w[0]] + [SIGMA[(SIGMA.index(v) + 1) % 3] for v in w[1:-1]] + [w[-1]]
+
+
+def exercise(s):
+    """Query the object in every way: lazy properties, non-default spectra, array-level functions, dominant period, smoothed
+    spectrum, integrated series and the deprecated statistics methods that store results on the object.  Whether the
+    auxiliary ones succeed is not this property's business."""
+    calls = [lambda: (s.fa_spectrum, s.fa_freqs, s.fa_frequencies, s.fa_spectrum_abs), lambda: s.smooth_fa_spectrum,
+             lambda: im.max_fa_period(s), lambda: frequency.calc_fa_spectrum(s), lambda: frequency.calc_fa_spectrum(s, p2_plus=2),
+             lambda: frequency.calc_fa_spectrum(s, n=2 * s.npts + 1), lambda: frequency.generate_fa_spectrum(s),
+             lambda: frequency.generate_fa_spectrum(s, n_pad=False), lambda: s.gen_fa_spectrum(p2_plus=1),
+             lambda: s.gen_fa_spectrum(n=s.npts + 1), lambda: s.gen_fa_spectrum(), lambda: (s.velocity, s.displacement, s.pga, s.pgv),
+             lambda: s.generate_cumulative_stats(), lambda: s.generate_duration_stats(), lambda: s.generate_peak_values()]
+    for c in calls:
+        try:
+            c()
+        except Exception:
+            pass
+
+
+def check_object_now(r, sub, s, ref, L, dt, fac=1, full=True):
+    """The object s holds (fac x) the record of `ref` NOW: its lazy properties, the dominant period, the array-level functions
+    given this object, every padding mode of gen_fa_spectrum and the default mode after them."""
+    n_default = fr.n_rule(L, 0)
+    rspec, rfreqs, rtop = ref.get(n_default, dt)
+    rspec = fac * rspec
+    r.states += 1
+    r.transitions += 1
+    s1 = dict(sub, mode='default', entry='object-lazy')
+    ok, out = r.call('values', s1, lambda: (s.fa_spectrum, s.fa_freqs, s.fa_frequencies, s.fa_spectrum_abs))
+    if ok:
+        cmp_spec(r, s1, out[0], out[1], rspec, rfreqs)
+        r.expect_close('grid', dict(s1, entry='object-lazy-fa_frequencies'), out[2], rfreqs, rtol=1e-9)
+        r.expect_close('values', dict(s1, entry='object-lazy-fa_spectrum_abs'), out[3], np.abs(rspec), rtol=1e-9,
+                       scale=float(np.max(np.abs(rspec))))
+    s1 = dict(sub, mode='default')
+    ok, p = r.call('max_fa_period', s1, im.max_fa_period, s)
+    if ok:
+        period_check(r, s1, p, rspec, n_default, dt)
+    for ename, fn, N in (('calc_fa_spectrum-unpadded', lambda: frequency.calc_fa_spectrum(s), L),
+                         ('calc_fa_spectrum-p2_plus=1', lambda: frequency.calc_fa_spectrum(s, p2_plus=1), 2 * n_default),
+                         ('generate_fa_spectrum-padded', lambda: frequency.generate_fa_spectrum(s), n_default)):
+        s1 = dict(sub, mode='N=%d' % N, entry=ename)
+        r.states += 1
+        ok, out = r.call('values', s1, fn)
+        if ok:
+            ok, aspec, afreqs = unpack2(r, 'values', s1, out)
+            if ok:
+                a, f, _ = ref.get(N, dt)
+                cmp_spec(r, s1, aspec, afreqs, fac * a, f)
+    modes = modes_for(L)[1:] if full else [('p2_plus=1', {'p2_plus': 1}), ('n=%d' % ((L + 2) | 1), {'n': (L + 2) | 1})]
+    for mname, kw in modes + [('default-after-explicit', {})]:
+        N = fr.n_rule(L, kw.get('p2_plus', 0), kw.get('n'))
+        s1 = dict(sub, mode=mname, entry='object-gen_fa_spectrum')
+        r.states += 1
+        if not kw:
+            r.cls('default-after-explicit')
+
+        def gen():
+            s.gen_fa_spectrum(**kw)
+            return s.fa_spectrum, s.fa_freqs
+        ok, out = r.call('values', s1, gen)
+        if ok:
+            a, f, _ = ref.get(N, dt)
+            cmp_spec(r, s1, out[0], out[1], fac * a, f)
+            if mname in ('p2_plus=1', 'default-after-explicit'):
+                ok, p = r.call('max_fa_period', dict(sub, mode=mname), im.max_fa_period, s)
+                if ok:
+                    period_check(r, dict(sub, mode=mname), p, fac * a, N, dt)
+
+
+def run_obj(r, w, tag):
+    L = len(w)
+    ref = RefCache(w)
+    wf = np.array(w, dtype=float)
+    r.nontrivial += 1
+    n_default = fr.n_rule(L, 0)
+    pw = partner(w)
+    pref = RefCache(pw)
+    pf = np.array(pw, dtype=float)
+    for dt in DTS:
+        for cname in CLASSES:
+            r.cls(cname)
+            base = {'w': tag, 'dt': dt, 'cls': cname}
+            # ---- (1) the object held another record of another length before and was queried in some way
+            for plen in prev_lens(L):
+                pv = np.array(long_record(plen, 'mixed'), dtype=float)
+                r.cls('history-shorter-record-before' if plen < L else 'history-longer-record-before')
+                r.cls('history-across-power-of-two' if fr.n_rule(plen, 0) != n_default else 'history-same-padded-length')
+                for hname in HIST:
+                    sub = dict(base, prev_len=plen, before=hname)
+
+                    def prepare():
+                        s_ = make(cname, pv, dt)
+                        if hname == 'everything':
+                            exercise(s_)
+                        elif hname == 'gen_fa_spectrum(p2_plus=1)':
+                            s_.gen_fa_spectrum(p2_plus=1)
+                        elif hname == 'gen_fa_spectrum(n=odd)':
+                            s_.gen_fa_spectrum(n=(plen + 2) | 1)
+                        s_.reset_values(wf.copy())
+                        return s_
+                    ok, s = r.call('values', dict(sub, entry='prepare'), prepare)
+                    if ok:
+                        check_object_now(r, sub, s, ref, L, dt, full=(hname in ('nothing', 'everything')))
+            # ---- (2) same-length modifications of the record of an object that was queried before
+            sub = dict(base, before='everything', change='add_constant')
+
+            def prep2():
+                s_ = make(cname, wf - 3.0, dt)
+                exercise(s_)
+                s_.add_constant(3.0)
+                return s_
+            ok, s = r.call('values', dict(sub, entry='prepare'), prep2)
+            if ok:
+                r.cls('history-add_constant')
+                check_object_now(r, sub, s, ref, L, dt, full=False)
+                sub = dict(base, before='everything', change='add_constant,add_series(record)')
+                ok, _ = r.call('values', dict(sub, entry='prepare'), s.add_series, wf.copy())
+                if ok:
+                    r.cls('history-add_series')
+                    check_object_now(r, sub, s, ref, L, dt, fac=2, full=False)
+                    sub = dict(base, before='everything', change='add_constant,add_series(record),reset_values(partner)')
+                    ok, _ = r.call('values', dict(sub, entry='prepare'), s.reset_values, pf.copy())
+                    if ok:
+                        check_object_now(r, sub, s, pref, L, dt, full=False)
+            # ---- (3) argument containers
+            conts = [('i64', lambda: np.array(w, dtype=np.int64), 1), ('i16', lambda: np.array([15000 * v for v in w], dtype=np.int16), 15000),
+                     ('list', lambda: [int(v) for v in w], 1), ('tuple', lambda: tuple(float(v) for v in w), 1)]
+            if min(w) >= 0:
+                conts.append(('u8', lambda: np.array([125 * v for v in w], dtype=np.uint8), 125))
+            for kname, mk, fac in conts:
+                r.cls('container-' + kname)
+                sub = dict(base, container=kname)
+                ok, s = r.call('values', dict(sub, entry='construct'), lambda: make(cname, mk(), dt))
+                if ok:
+                    check_object_now(r, sub, s, ref, L, dt, fac=fac, full=False)
+                sub = dict(base, container=kname, via='reset_values', prev_len=L + 1)
+
+                def prep3():
+                    s_ = make(cname, np.array(long_record(L + 1, 'mixed'), dtype=float), dt)
+                    _ = s_.fa_spectrum
+                    s_.reset_values(mk())
+                    return s_
+                ok, s = r.call('values', dict(sub, entry='construct'), prep3)
+                if ok:
+                    check_object_now(r, sub, s, ref, L, dt, fac=fac, full=False)
+            # ---- (4) A, B, A on fresh objects (B: same length and end values) and two live objects
+            r.cls('a-b-a')
+            entries = [('object-lazy', lambda s_: (s_.fa_spectrum, s_.fa_freqs), n_default),
+                       ('object-gen_fa_spectrum(p2_plus=1)', lambda s_: (s_.gen_fa_spectrum(p2_plus=1), s_.fa_spectrum, s_.fa_freqs)[1:], 2 * n_default),
+                       ('object-gen_fa_spectrum(n=L+1)', lambda s_: (s_.gen_fa_spectrum(n=L + 1), s_.fa_spectrum, s_.fa_freqs)[1:], L + 1),
+                       ('calc_fa_spectrum-unpadded', lambda s_: frequency.calc_fa_spectrum(s_), L),
+                       ('calc_fa_spectrum-n=2L', lambda s_: frequency.calc_fa_spectrum(s_, n=2 * L), 2 * L),
+                       ('generate_fa_spectrum-padded', lambda s_: frequency.generate_fa_spectrum(s_), n_default)]
+            for ename, fn, N in entries:
+                for step, vals, rf in (('A', wf, ref), ('B', pf, pref), ('A-again', wf, ref)):
+                    sub = dict(base, mode='N=%d' % N, entry=ename, step=step)
+                    r.states += 1
+                    ok, out = r.call('values', sub, lambda: fn(make(cname, vals, dt)))
+                    if ok:
+                        ok, aspec, afreqs = unpack2(r, 'values', sub, out)
+                        if ok:
+                            a, f, _ = rf.get(N, dt)
+                            cmp_spec(r, sub, aspec, afreqs, a, f)
+            for step, vals, rf in (('A', wf, ref), ('B', pf, pref), ('A-again', wf, ref)):
+                sub = dict(base, mode='default', step=step)
+                ok, p = r.call('max_fa_period', sub, lambda: im.max_fa_period(make(cname, vals, dt)))
+                if ok:
+                    period_check(r, sub, p, rf.get(n_default, dt)[0], n_default, dt)
+            r.cls('two-live-objects')
+            sub = dict(base, entry='two-live-objects')
+
+            def two():
+                sa = make(cname, wf, dt)
+                sb = make(cname, pf, dt)
+                first = (np.array(sa.fa_spectrum), np.array(sa.fa_freqs))
+                second = (np.array(sb.fa_spectrum), np.array(sb.fa_freqs))
+                sa.gen_fa_spectrum(p2_plus=1)
+                return first, second, (sb.fa_spectrum, sb.fa_freqs), (sa.fa_spectrum, sa.fa_freqs)
+            ok, out = r.call('values', sub, two)
+            if ok:
+                for (step, rf, N), o in zip((('a-default', ref, n_default), ('b-default', pref, n_default),
+                                              ('b-after-a.gen(p2_plus=1)', pref, n_default),
+                                              ('a-after-gen(p2_plus=1)', ref, 2 * n_default)), out):
+                    a, f, _ = rf.get(N, dt)
+                    r.states += 1
+                    cmp_spec(r, dict(sub, step=step, mode='N=%d' % N), o[0], o[1], a, f)
+            # ---- (5) the caller overwrites what it was given, then asks again
+            r.cls('returned-array-overwritten')
+            ok, s = r.call('values', dict(base, entry='construct'), lambda: make(cname, wf, dt))
+            if ok:
+                for ename, fn, N in entries[3:] + [('calc_fa_spectrum-p2_plus=1', lambda s_: frequency.calc_fa_spectrum(s_, p2_plus=1), 2 * n_default),
+                                                  ('generate_fa_spectrum-unpadded', lambda s_: frequency.generate_fa_spectrum(s_, n_pad=False), L)]:
+                    sub = dict(base, mode='N=%d' % N, entry=ename, step='again-after-result-overwritten')
+                    r.states += 1
+
+                    def twice():
+                        o = fn(s)
+                        o[0][...] = 1e30
+                        o[1][...] = -1.0
+                        return fn(s)
+                    ok, out = r.call('values', sub, twice)
+                    if ok:
+                        ok, aspec, afreqs = unpack2(r, 'values', sub, out)
+                        if ok:
+                            a, f, _ = ref.get(N, dt)
+                            cmp_spec(r, sub, aspec, afreqs, a, f)
+                # arrays handed out by the lazy properties are the object's own store (as sig.values is): after the caller wrote
+                # into them the object must be correct again once the spectrum is regenerated / the record is reset.
+                # RESTRICTED: re-reading sig.fa_spectrum WITHOUT regeneration returns the overwritten array on the unchanged
+                # tree (Signal([2., 0., -1.], 0.01): a = s.fa_spectrum; a[...] = 0; s.fa_spectrum -> zeros) - not examined.
+                for how in ('gen_fa_spectrum()', 'reset_values(record)'):
+                    sub = dict(base, mode='default', entry='object-lazy', step='overwritten,' + how)
+                    r.states += 1
+
+                    def regen():
+                        a, f = s.fa_spectrum, s.fa_freqs
+                        a[...] = 1e30
+                        f[...] = -1.0
+                        if how == 'gen_fa_spectrum()':
+                            s.gen_fa_spectrum()
+                        else:
+                            s.reset_values(wf.copy())
+                        return s.fa_spectrum, s.fa_freqs
+                    ok, out = r.call('values', sub, regen)
+                    if ok:
+                        a, f, _ = ref.get(n_default, dt)
+                        cmp_spec(r, sub, out[0], out[1], a, f)
+            if cname == 'Signal':
+                rspec, rfreqs, rtop = ref.get(n_default, dt)
+                want = np.array([float(v) for v in fr.padded_minus_mean_and_nyquist(w, n_default)])
+                scale = float(max(abs(v) for v in w)) or 1.0
+                sub = {'w': tag, 'dt': dt, 'N': n_default, 'feed': 'reference', 'step': 'again-after-result-overwritten'}
+
+                def inv_twice():
+                    fas = rspec.copy()
+                    v = frequency.fas2values(fas, dt)
+                    v[...] = 1e30
+                    sg = frequency.fas2signal(fas, dt)
+                    sg.values[...] = 1e30
+                    return frequency.fas2values(fas, dt), frequency.fas2signal(fas, dt).values
+                ok, out = r.call('inverse.values', sub, inv_twice)
+                if ok:
+                    check_series(r, dict(sub, fn='fas2values'), out[0], want, n_default, scale)
+                    check_series(r, dict(sub, fn='fas2signal'), out[1], want, n_default, scale)
+                # the one-sided spectrum handed over as a python list of complex numbers
+                sub = {'w': tag, 'dt': dt, 'N': n_default, 'feed': 'reference', 'container': 'list'}
+                ok, out = r.call('inverse.values', sub, lambda: (frequency.fas2values([complex(v) for v in rspec], dt),
+                                                                 frequency.fas2signal([complex(v) for v in rspec], dt).values))
+                if ok:
+                    check_series(r, dict(sub, fn='fas2values'), out[0], want, n_default, scale)
+                    check_series(r, dict(sub, fn='fas2signal'), out[1], want, n_default, scale)
+    return r
+
+
+def near_record(N, k1, k2, eps, scale):
+    return [scale * (np.cos(2 * np.pi * ((k1 * t) % N) / N) + (1.0 + eps) * np.cos(2 * np.pi * ((k2 * t) % N) / N + 0.3))
+            for t in range(N)]
+
+
+def run_near(r, N):
+    """Two harmonics whose amplitudes differ by eps relative: the dominant period is that of the larger one."""
+    for k1 in range(1, N // 2):
+        for k2 in range(1, N // 2):
+            if k1 == k2:
+                continue
+            for eps in NEAR_EPS:
+                for scale in NEAR_SCALES:
+                    x = [float(v) for v in near_record(N, k1, k2, eps, scale)]
+                    ref = RefCache(x)
+                    r.nontrivial += 1
+                    r.cls('near-equal-amplitudes')
+                    for dt in DTS:
+                        rspec, rfreqs, rtop = ref.get(N, dt)
+                        for cname in CLASSES:
+                            sub = {'N': N, 'k1': k1, 'k2': k2, 'eps': eps, 'scale': scale, 'dt': dt, 'cls': cname}
+                            r.states += 1
+                            ok, s = r.call('values', sub, lambda: make(cname, np.array(x), dt))
+                            if not ok:
+                                continue
+                            ok, out = r.call('values', sub, lambda: (s.fa_spectrum, s.fa_freqs))
+                            if ok:
+                                cmp_spec(r, sub, out[0], out[1], rspec, rfreqs)
+                            ok, p = r.call('max_fa_period', sub, im.max_fa_period, s)
+                            if ok:
+                                period_check(r, sub, p, rspec, N, dt)
+                                amp = np.abs(rspec)
+                                r.expect('max_fa_period', dict(sub, oracle='larger-harmonic'), int(np.argmax(amp)) == k2,
+                                         'reference: the larger harmonic is not the arg-max (harness)', observed=int(np.argmax(amp)),
+                                         expected=k2)
+    return r
+
+
 # ------------------------------------------------------------------------------ linearity
 def spectra(entry, cname, vals, dt, L):
     s = make(cname, vals, dt)
@@ -558,6 +914,20 @@ def run_case(case):
     if k == 'long':
         w = long_record(case['L'], case['pat'])
         return check_record(r, w, 'long:%s:L=%d' % (case['pat'], case['L']), light=True)
+    if k == 'obj':
+        if 'w' in case:
+            return run_obj(r, case['w'], case['w'])
+        return run_obj(r, long_record(case['L'], case['pat']), 'long:%s:L=%d' % (case['pat'], case['L']))
+    if k == 'scaled':
+        sc = float(case['scale'])
+        r.cls('scaled-%.0e' % sc)
+        if 'w' in case:
+            w, tag = case['w'], {'w': case['w'], 'scale': sc}
+        else:
+            w, tag = long_record(case['L'], case['pat']), 'long:%s:L=%d:scale=%g' % (case['pat'], case['L'], sc)
+        return check_record(r, [sc * v for v in w], tag, light=True, dts=SCALED_DTS)
+    if k == 'near':
+        return run_near(r, case['N'])
     if k == 'pair':
         return run_pairs(r, case['x'])
     if k == 'inv':
@@ -567,18 +937,26 @@ def run_case(case):
 
 def snippet(case, v):
     sub = v.get('sub') or {}
-    if case['k'] == 'word':
-        rec = case['w']
-    elif case['k'] == 'long':
-        rec = long_record(case['L'], case['pat'])
-    elif case['k'] == 'pair':
+    k = case['k']
+    if k in ('word', 'obj', 'scaled') and 'w' in case:
+        rec = [float(case.get('scale', 1)) * x for x in case['w']]
+    elif k in ('long', 'obj', 'scaled'):
+        rec = [float(case.get('scale', 1)) * x for x in long_record(case['L'], case['pat'])]
+    elif k == 'pair':
         rec = case['x']
+    elif k == 'near':
+        rec = [float(x) for x in near_record(case['N'], sub.get('k1', 1), sub.get('k2', 2), sub.get('eps', 1e-6), sub.get('scale', 1.0))]
     else:
         rec = dict(inv_records(case['N'])).get(sub.get('rec'))
         sub = dict(sub, mode='n=%d' % case['N'])
+    pre = ''
+    if 'prev_len' in sub:
+        pre = ("# object history: constructed with another record of length %d, queried (%s), then reset_values(rec)\n"
+               "s = eqsig.Signal(np.array(%r, float), sub['dt']); s.fa_spectrum; s.reset_values(np.array(rec, float))\n"
+               % (sub['prev_len'], sub.get('before'), long_record(int(sub['prev_len']), 'mixed')))
     return ("import numpy as np, eqsig\nfrom eqsig.fns import frequency\n"
             "sub = %r\nrec = %r\n"
-            "s = eqsig.Signal(np.array(rec, float), sub['dt']); kw = {}\n"
+            "s = eqsig.Signal(np.array(rec, float), sub['dt']); kw = {}\n%s"
             "m = str(sub.get('mode', ''))\n"
             "if m.startswith('n='): kw = {'n': int(m[2:])}\n"
             "if m.startswith('p2_plus='): kw = {'p2_plus': int(m[8:])}\n"
@@ -586,4 +964,5 @@ def snippet(case, v):
             "print('spectrum', s.fa_spectrum); print('freqs', s.fa_freqs, 'expected k/(N dt):', np.arange(N // 2) / (N * s.dt))\n"
             "print('max_fa_period', eqsig.im.max_fa_period(s), 'abs', abs(s.fa_spectrum))\n"
             "print('len fas2values', len(frequency.fas2values(s.fa_spectrum, s.dt)), 'N', N)\n"
-            % (sub, rec))
+            "print('npts', s.npts, '-> default N = next power of two >= npts; sub[mode] names the N of the statement')\n"
+            % (sub, rec, pre))
